@@ -283,7 +283,7 @@ CHECKS["C10"] = dict(
          "block of exactly the documented size; library allocations counted by link-time wraps; watchdog), following observed outcomes where the contract leaves "
          "them open (quick: a 15k sample of the pairs, thorough: all), plus random sessions with arbitrary ids / windows / lengths / enum values / definition "
          "parameters. MisuseTrace.tla judges every recorded call: invalid => error code, no crash / hang / sanitizer report, every close and every failed open "
-         "returns the library's heap to its level before the open. The raw chunk API (jls_raw_*) has its own contract Raw.tla / graph RawGen.tla / judge RawTrace.tla: every implementation-reachable (state, call) pair over open mode x file kind x cursor class x cached header, and random raw sessions with arbitrary tags, lengths and offsets, run on the same sanitizer build.",
+         "returns the library's heap to its level before the open. The raw chunk API (jls_raw_*) has its own contract Raw.tla / graph RawGen.tla / judge RawTrace.tla: every implementation-reachable (state, call) pair over open mode x file kind x cursor class x cached header, and random raw sessions with arbitrary tags, lengths and offsets, run on the same sanitizer build. The alphabet includes destinations that cannot be opened (the failed open must keep no memory) and 64-bit windows and increments up to 2^63 - 1 (sums and products in the range checks must not wrap).",
     design_ref="DESIGN.md section 6 C10, section 12",
     note="Trusted: TLC, ASan/UBSan (clang 14), the driver. Handles are used only while open and NULL data pointers are not passed (the property's 'valid pointers'). "
          "Threaded-writer data calls are asynchronous: their return code for invalid ids is not judged. jls_rd_utc on a defined non-FSR signal may return an "
